@@ -29,7 +29,7 @@ YOUR TASK: produce TWO different, independent, realistic changes (bugs) to the p
 For each change N in {1, 2}:
  1. Start from a clean worktree (git -C %(wt)s checkout -- . ; git -C %(wt)s status).
  2. Make the change, then run the full test suite from the worktree root: `cd %(wt)s && /venv/bin/python -m pytest -q -p no:cacheprovider -x 2>&1 | tail -5`. It must report 481 passed (17 skipped). If any test fails, change your approach.
- 3. Write a small standalone demonstration program /tmp/seed-%(pid)s/N/demo.py that uses only petl's public API (run with `cd %(wt)s && /venv/bin/python /tmp/seed-%(pid)s/N/demo.py`), which exits 0 and prints PASS on the unmodified code and exits 1 and prints FAIL (with a short explanation of the property violation observed) on the modified code. Verify both directions yourself (use `git stash` / `git stash pop` or save the diff and `git checkout -- .` / `git apply`).
+ 3. Write a small standalone demonstration program /tmp/seed-%(pid)s/N/demo.py that uses only petl's public API (run with `cd %(wt)s && /venv/bin/python /tmp/seed-%(pid)s/N/demo.py`), which exits 0 and prints PASS on the unmodified code and exits 1 and prints FAIL (with a short explanation of the property violation observed) on the modified code. Verify both directions yourself: save the diff to a file, `git checkout -- .`, run the demo, `git apply` the diff, run it again. Do NOT use `git stash` (the stash is shared between all worktrees of this repository and other people are working in parallel).
  4. Save the change as /tmp/seed-%(pid)s/N/patch.diff (output of `git -C %(wt)s diff`), and write /tmp/seed-%(pid)s/N/notes.txt: what the change is, why it breaks the property, what exactly is needed for it to manifest, and the commands you ran with their results.
  5. Restore the worktree to a clean state (git checkout -- .) before the next change and at the end.
 
